@@ -223,6 +223,19 @@ void lsd_fatal_error(char *file, int line, char *mesg)
 void *lsd_nomem_error(char *file, int line, char *mesg) { return NULL; }
 #endif
 
+/* OUT-PARAMETERS: every call that has one gets a POISONED value in it (never a plausible count) and
+ * the answer reports what came back: cbuf.h promises "Sets [ndropped] (if not NULL) to the number of
+ * bytes overwritten" for EVERY call -- also the zero-length and the refused (EINVAL) ones, which
+ * overwrite nothing: 0, never what the caller's variable held before.  `nullnd 1`: the calls get NULL
+ * instead ("if not NULL": must be accepted on every path); the answer then carries no drop column. */
+#define ND_POISON 0x5a5a5a5a
+static int null_nd;
+#define NDP(nd) (null_nd ? (int *) NULL : &(nd))
+static void put_ret_nd(int n, int nd)
+{
+    if (null_nd) printf("%d", n); else printf("%d %d", n, nd);
+}
+
 static int hexval(int c)
 {
     if (c >= '0' && c <= '9') return c - '0';
@@ -393,6 +406,9 @@ int main(int argc, char **argv)
         h_destroy(t);
         return 0;
     }
+    /* line-buffered answers: when cbuf.c aborts (assertion, sanitizer, fatal) the answers of the ops
+     * before the fatal one have reached the checker, so the replay names the op that crashed */
+    setvbuf(stdout, NULL, _IOLBF, 1 << 16);
     while (fgets(line, sizeof(line), stdin)) {
         char op[32];
         int nf;
@@ -407,7 +423,13 @@ int main(int argc, char **argv)
             second = 0;
             eintr_left = 0;
             err_kind = 0;
+            null_nd = 0;
             printf("ok"); lk_mark(); printf("\n");
+            continue;
+        }
+        if (!strcmp(op, "nullnd")) {
+            null_nd = atoi(a1) == 1;
+            printf("ok\n");
             continue;
         }
         if (!strcmp(op, "eintr")) {
@@ -439,31 +461,51 @@ int main(int argc, char **argv)
         }
         if (!strcmp(op, "copy") || !strcmp(op, "move")) {
             cbuf_t dst = bufs[!second];
-            int nd = -7, n;
+            int nd = ND_POISON, n;
             if (nf < 2) { printf("bad-op\n"); continue; }
             if (!cb || !dst) { printf("no-cbuf\n"); continue; }
-            n = (op[0] == 'c') ? CALL2(cbuf_copy(cb, dst, atoi(a1), &nd)) : CALL2(cbuf_move(cb, dst, atoi(a1), &nd));
-            printf("%d %d", n, nd); stat_mid(cb); stat_tail(dst);
+            n = (op[0] == 'c') ? CALL2(cbuf_copy(cb, dst, atoi(a1), NDP(nd))) : CALL2(cbuf_move(cb, dst, atoi(a1), NDP(nd)));
+            put_ret_nd(n, nd); stat_mid(cb); stat_tail(dst);
             continue;
         }
         if (!cb) { printf("no-cbuf\n"); continue; }
         if (!strcmp(op, "opt")) {
             int rc = CALL1(cbuf_opt_set(cb, CBUF_OPT_OVERWRITE, atoi(a1)));
             printf("%d", rc); stat_tail(cb);
+        } else if (!strcmp(op, "refused")) {
+            /* calls the entry points must refuse (EINVAL) without touching the buffer -- and with the
+             * out-parameter SET (0 bytes overwritten): 0 write(NULL source), 1 write(len -1),
+             * 2 write_from_fd(fd -1), 3 copy(src == dst), 4 move(src == dst), 5 copy(src == dst, len -1), 6 write_line(NULL);
+             * write_from_fd(len -2) is `wfd -2` */
+            int k = atoi(a1), nd = ND_POISON, n, e;
+            unsigned char tmp[4] = { 'r', 'e', 'f', 0 };
+            if (k < 0 || k > 6) { printf("bad-op\n"); continue; }
+            errno = 0;
+            n = k == 0 ? CALL1(cbuf_write(cb, NULL, 3, NDP(nd)))
+              : k == 1 ? CALL1(cbuf_write(cb, tmp, -1, NDP(nd)))
+              : k == 2 ? CALL1(cbuf_write_from_fd(cb, -1, 3, NDP(nd)))
+              : k == 3 ? CALL2(cbuf_copy(cb, cb, 2, NDP(nd)))
+              : k == 4 ? CALL2(cbuf_move(cb, cb, -1, NDP(nd)))
+              : k == 6 ? CALL1(cbuf_write_line(cb, NULL, NDP(nd)))
+              :          CALL2(cbuf_copy(cb, cb, -1, NDP(nd)));
+            e = errno;
+            put_ret_nd(n, nd);
+            if (n == -1 && e != EINVAL) printf(" !errno=%d!", e);
+            stat_tail(cb);
         } else if (!strcmp(op, "write")) {
-            int len, nd = -7;
+            int len, nd = ND_POISON;
             unsigned char *b = unhex(a1, &len);
-            int n = CALL1(cbuf_write(cb, b, len, &nd));
-            printf("%d %d", n, nd); stat_tail(cb);
+            int n = CALL1(cbuf_write(cb, b, len, NDP(nd)));
+            put_ret_nd(n, nd); stat_tail(cb);
             free(b);
         } else if (!strcmp(op, "wline")) {
-            int len, nd = -7;
+            int len, nd = ND_POISON;
             unsigned char *b = unhex(a1, &len);
-            int n = CALL1(cbuf_write_line(cb, (char *) b, &nd));
-            printf("%d %d", n, nd); stat_tail(cb);
+            int n = CALL1(cbuf_write_line(cb, (char *) b, NDP(nd)));
+            put_ret_nd(n, nd); stat_tail(cb);
             free(b);
         } else if (!strcmp(op, "wfd")) {
-            int len, nd = -7, pfd[2];
+            int len, nd = ND_POISON, pfd[2];
             unsigned char *b = unhex(a2, &len);
             int n;
             if (pipe(pfd) < 0) { perror("pipe"); return 2; }
@@ -471,8 +513,8 @@ int main(int argc, char **argv)
             fcntl(pfd[1], F_SETPIPE_SZ, 1 << 20);
             if (len > 0 && write(pfd[1], b, len) != len) { perror("short pipe write"); return 2; }
             if (atoi(a3) == 1) { close(pfd[1]); pfd[1] = -1; }  /* 1: EOF behind the data; else: error */
-            n = CALL1(cbuf_write_from_fd(cb, pfd[0], atoi(a1), &nd));
-            printf("%d %d", n, nd); stat_tail(cb);
+            n = CALL1(cbuf_write_from_fd(cb, pfd[0], atoi(a1), NDP(nd)));
+            put_ret_nd(n, nd); stat_tail(cb);
             close(pfd[0]);
             if (pfd[1] >= 0) close(pfd[1]);
             free(b);
